@@ -1,4 +1,4 @@
-CONSTANTS MaxK = 4  Vals = {0, 1, 2, 3}  Inf = 9  MaxOps = 8
+CONSTANTS MaxK = 5  Vals = {0, 1, 2, 3}  Inf = 9  MaxOps = 10
 SPECIFICATION Spec
 VIEW View
 INVARIANT ContractInv
